@@ -312,8 +312,13 @@ func c09Run(c c09Case) core.Result {
 		sources = []string{"src"}
 	}
 	if c.ioerr {
-		// a second source argument that does not exist raises the sender's I/O error flag
-		sources = append(sources, "vanished/")
+		// a source argument that does not exist raises the sender's I/O error flag: as the last
+		// argument, or (every other case) as the first one, followed by an argument that lists cleanly
+		if (c.top+c.sub)%2 == 0 {
+			sources = append(sources, "vanished/")
+		} else {
+			sources = append([]string{"vanished/"}, sources...)
+		}
 	}
 	out := drive.Run(drive.Job{Arr: c.arr, Args: args, Base: dir, Sources: sources, Dest: dst})
 	cnt(&res, "transitions", 1)
